@@ -12,6 +12,13 @@ import (
 )
 
 func main() {
+	if len(os.Args) == 6 && os.Args[1] == "crashchild" {
+		si, _ := strconv.Atoi(os.Args[2])
+		k, _ := strconv.Atoi(os.Args[3])
+		seed, _ := strconv.ParseInt(os.Args[5], 10, 64)
+		props.CrashChild(si, k, os.Args[4], seed)
+		return
+	}
 	if len(os.Args) < 4 || os.Args[1] != "check" {
 		fmt.Fprintln(os.Stderr, "usage: verifh check <ID> <quick|thorough>")
 		os.Exit(3)
